@@ -72,6 +72,9 @@ func emitEnc(toks []string, sigCtx string) []byte {
 		}
 		checkEnc(e, sigCtx, op, true)
 		out = e.Bytes
+		// the line carries the calls as recorded in the real pass: a varint length field then holds the length
+		// the prep pass stored in it (the script's own `pv:<n>` is what it held before the first pass)
+		op = "enc " + e.Toks
 		return fmt.Sprintf("%d %s", e.PrepLen, hx(e.Bytes))
 	})
 	if ans == "rejected" {
@@ -421,8 +424,15 @@ func init() {
 		SaslAuthenticateResponse DeleteGroupsRequest DeleteGroupsResponse CreateTopicsResponse JoinGroupResponse OffsetFetchResponse
 		AlterPartitionReassignmentsRequest ListPartitionReassignmentsRequest MetadataResponse OffsetCommitRequest FetchRequest`) {
 		schemaBodies[n] = true
+		dschemaBodies[n] = true
 	}
+	// the decoder reads the partition list as count + int32s where the encoder (and the schema) use one
+	// putCompactInt32Array call: same bytes, different call granularity
+	delete(dschemaBodies, "ListPartitionReassignmentsRequest")
 }
+
+// bodies whose decode makes the calls the schema's decoder makes (same primitives in the same order)
+var dschemaBodies = map[string]bool{}
 
 // values outside what the schema language expresses (documented in CodecSchemas.lean): none so far
 func schemaFits(name string, ver int16, toks string) bool { return true }
@@ -477,6 +487,10 @@ func bodyCase(name string, ver int16, shape int, small bool, caseSeed uint64) {
 		v2 := b.New()
 		d := sarama.VerifDecodeBodyTraced(e1.Bytes, v2, ver)
 		run.Emit("dec "+hx(e1.Bytes)+" "+d.Toks, decAnswer(d))
+		if dschemaBodies[b.Name] && d.Err == nil && d.Off == len(e1.Bytes) {
+			run.Emit(fmt.Sprintf("dschema %s %d %s", b.Name, ver, hx(e1.Bytes)), decAnswer(d))
+			run.Count("dschema:" + b.Name)
+		}
 		if d.Err != nil {
 			fail("decode-of-own-encoding-failed:"+name, fmt.Sprintf("v%d: %v", ver, d.Err))
 			return "decode-failed"
